@@ -187,6 +187,64 @@ type fedOpGen struct {
 	nalias int
 	feats  map[string]bool
 	budget int
+	// @defer generation (C10): probability 1/deferEvery per selection set; 0 = never
+	deferEvery int
+	ndefer     int
+}
+
+// deferDirective: a fresh @defer directive text — plain, labelled, or with an `if` (literal true or a variable)
+func (g *fedOpGen) deferDirective() string {
+	g.ndefer++
+	switch g.r.Intn(6) {
+	case 0:
+		g.feats["defer:label"] = true
+		return fmt.Sprintf(`@defer(label: "L%d")`, g.ndefer)
+	case 1:
+		name := fmt.Sprintf("d%d", g.ndefer)
+		g.decls = append(g.decls, "$"+name+": Boolean!")
+		b := g.r.Intn(3) != 0
+		g.vars[name] = b
+		g.feats[fmt.Sprintf("defer:ifVariable=%v", b)] = true
+		return "@defer(if: $" + name + ")"
+	case 2:
+		g.feats["defer:ifTrue"] = true
+		return fmt.Sprintf(`@defer(if: true, label: "L%d")`, g.ndefer)
+	}
+	return "@defer"
+}
+
+// wrapDefer moves a random sub-list of the selections into one or two deferred inline fragments
+func (g *fedOpGen) wrapDefer(t *fedType, parts []string, depth int) []string {
+	if g.deferEvery == 0 || len(parts) == 0 || g.r.Intn(g.deferEvery) != 0 {
+		return parts
+	}
+	g.r.Shuffle(len(parts), func(i, j int) { parts[i], parts[j] = parts[j], parts[i] })
+	k := g.r.Intn(len(parts) + 1) // parts[k:] are deferred (k == 0: everything)
+	keep, rest := append([]string{}, parts[:k]...), parts[k:]
+	if len(rest) == 0 {
+		return parts
+	}
+	cond := ""
+	if g.r.Intn(3) == 0 && t.Kind != "UNION" {
+		cond = "on " + t.Name + " "
+		g.feats["defer:typeCondition"] = true
+	}
+	if len(rest) > 1 && g.r.Intn(3) == 0 {
+		// two sibling defers
+		m := 1 + g.r.Intn(len(rest)-1)
+		keep = append(keep, "... "+cond+g.deferDirective()+" { "+strings.Join(rest[:m], " ")+" }")
+		keep = append(keep, "... "+g.deferDirective()+" { "+strings.Join(rest[m:], " ")+" }")
+		g.feats["defer:siblings"] = true
+	} else {
+		keep = append(keep, "... "+cond+g.deferDirective()+" { "+strings.Join(rest, " ")+" }")
+	}
+	if depth == 0 {
+		g.feats["defer:atRoot"] = true
+	}
+	if len(keep) == 1 || (len(keep) == 2 && k == 0) {
+		g.feats["defer:wholeSelection"] = true
+	}
+	return keep
 }
 
 func (g *fedOpGen) argValue(argName, argType string, universeHint func(string) string) string {
@@ -244,7 +302,12 @@ func (g *fedOpGen) selection(typeName string, depth int, hint func(string) strin
 		parts = append(parts, "__typename")
 		for _, p := range t.Possible {
 			if g.r.Intn(3) != 0 {
-				parts = append(parts, "... on "+p+" "+g.selection(p, depth+1, hint))
+				dir := ""
+				if g.deferEvery != 0 && g.r.Intn(g.deferEvery) == 0 {
+					dir = g.deferDirective() + " "
+					g.feats["defer:onUnionMember"] = true
+				}
+				parts = append(parts, "... on "+p+" "+dir+g.selection(p, depth+1, hint))
 				g.feats["sel:unionFragment"] = true
 			}
 		}
@@ -305,7 +368,12 @@ func (g *fedOpGen) selection(typeName string, depth int, hint func(string) strin
 	if t.Kind == "INTERFACE" {
 		for _, pt := range t.Possible {
 			if g.r.Intn(2) == 0 {
-				parts = append(parts, "... on "+pt+" "+g.selection(pt, depth+1, hint))
+				dir := ""
+				if g.deferEvery != 0 && g.r.Intn(g.deferEvery) == 0 {
+					dir = g.deferDirective() + " "
+					g.feats["defer:onInterfaceMember"] = true
+				}
+				parts = append(parts, "... on "+pt+" "+dir+g.selection(pt, depth+1, hint))
 				g.feats["sel:interfaceFragment"] = true
 			}
 		}
@@ -322,13 +390,22 @@ func (g *fedOpGen) selection(typeName string, depth int, hint func(string) strin
 		g.nfrag++
 		g.frags = append(g.frags, "fragment "+name+" on "+t.Name+" { "+strings.Join(parts, " ")+" }")
 		g.feats["sel:namedFragment"] = true
+		if g.deferEvery != 0 && g.r.Intn(2) == 0 {
+			g.feats["defer:onSpread"] = true
+			return "{ __typename ..." + name + " " + g.deferDirective() + " }"
+		}
 		return "{ ..." + name + " }"
 	}
+	parts = g.wrapDefer(t, parts, depth)
 	return "{ " + strings.Join(parts, " ") + " }"
 }
 
 func fedGenOperation(r *rand.Rand, s *fedSchema, u *fedUniverse) (string, []byte, map[string]bool) {
-	g := &fedOpGen{r: r, s: s, vars: map[string]any{}, feats: map[string]bool{}, budget: 14 + r.Intn(20)}
+	return fedGenOperationDefer(r, s, u, 0)
+}
+
+func fedGenOperationDefer(r *rand.Rand, s *fedSchema, u *fedUniverse, deferEvery int) (string, []byte, map[string]bool) {
+	g := &fedOpGen{r: r, s: s, vars: map[string]any{}, feats: map[string]bool{}, budget: 14 + r.Intn(20), deferEvery: deferEvery}
 	hint := func(arg string) string {
 		// an existing key value most of the time
 		var cands []string
@@ -369,6 +446,7 @@ func fedGenOperation(r *rand.Rand, s *fedSchema, u *fedUniverse) (string, []byte
 	if len(g.decls) > 0 {
 		op += "(" + strings.Join(g.decls, ", ") + ")"
 	}
+	parts = g.wrapDefer(s.typ(s.Query), parts, 0)
 	op += " { " + strings.Join(parts, " ") + " }"
 	if len(g.frags) > 0 {
 		op += " " + strings.Join(g.frags, " ")
